@@ -29,6 +29,8 @@ pub enum Build {
   Raw,
   /// exactly one pass, once, through hook H3 ("pass:<name>")
   Pass(String),
+  /// the compiler's own driver, `samlang_compiler::compile_sources`, as the CLI calls it ("api")
+  Api,
 }
 
 impl Build {
@@ -36,6 +38,8 @@ impl Build {
     let s = s.trim();
     if s == "raw" {
       Build::Raw
+    } else if s == "api" {
+      Build::Api
     } else if let Some(p) = s.strip_prefix("pass:") {
       Build::Pass(p.to_string())
     } else {
@@ -47,6 +51,7 @@ impl Build {
       Build::Config(b) => format!("opt:{}", b.0),
       Build::Raw => "raw".to_string(),
       Build::Pass(p) => format!("pass:{p}"),
+      Build::Api => "api".to_string(),
     }
   }
 }
@@ -96,10 +101,27 @@ pub fn compile_in(
   build: &Build,
 ) -> Outcome {
   use crate::util::guarded;
+  if let Build::Api = build {
+    let entry_name = entry_ref.pretty_print(heap);
+    return match guarded(|| samlang_compiler::compile_sources(heap, handles.clone(), vec![entry_ref], false)) {
+      Err(message) => Outcome::Crashed { stage: "compile_sources".into(), message },
+      Ok(Err(rendered)) => Outcome::Rejected { rendered, errors: vec![] },
+      Ok(Ok(r)) => {
+        let ts = r.text_code_results.get(&format!("{entry_name}.ts")).cloned().unwrap_or_default();
+        let wat = r.text_code_results.get("__all__.wat").cloned().unwrap_or_default();
+        // the driver ends the entry module's TypeScript with `<main>();`
+        let main_fn = ts.trim_end().rsplit('\n').next().unwrap_or("").trim_end_matches("();").to_string();
+        Outcome::Compiled(Compiled { ts, wat, wasm: r.wasm_file, main_fn })
+      }
+    };
+  }
   let mut error_set = samlang_errors::ErrorSet::new();
   let mut parsed = HashMap::new();
   let r = guarded(|| {
-    for (m, text) in handles {
+    // same order as the compiler's own driver (compile_sources): by module name
+    let mut ordered: Vec<_> = handles.iter().collect();
+    ordered.sort_by_cached_key(|(m, _)| m.pretty_print(heap));
+    for (m, text) in ordered {
       let p = samlang_parser::parse_source_module_from_text(text, *m, heap, &mut error_set);
       parsed.insert(*m, p);
     }
@@ -130,6 +152,7 @@ pub fn compile_in(
   let optimized = guarded(|| match build {
     Build::Config(opt) => samlang_optimization::optimize_sources(heap, mir, &opt.config()),
     Build::Raw => mir,
+    Build::Api => unreachable!(),
     // "a+b": pass a then pass b (inlining leaves argument bindings for CCP to substitute)
     Build::Pass(p) => p
       .split('+')
@@ -184,6 +207,7 @@ pub fn mir_dump_main(args: &[String]) {
   let mir = match &build {
     Build::Config(opt) => samlang_optimization::optimize_sources(&mut heap, mir, &opt.config()),
     Build::Raw => mir,
+    Build::Api => unreachable!(),
     Build::Pass(p) => p
       .split('+')
       .fold(mir, |m, one| samlang_optimization::verif_hooks::run_single_pass(&mut heap, m, one)),
